@@ -19,7 +19,7 @@ from __future__ import annotations
 import ast
 from itertools import product
 
-from ..absmachine import AbsMachine, ADict, AList, Obj, Outcome, UNKNOWN, class_isinstance
+from ..absmachine import AbsMachine, ADict, AList, Obj, Outcome, Raise, UNKNOWN, class_isinstance
 from ..astx import attr_writes, call_name, call_sites, calls, enclosing_with_items, method_name, walk_local
 from ..cfg import CFG
 from ..exctable import ExcTable
@@ -88,6 +88,15 @@ def tracker(chk: Check, repo: Repo) -> None:
         got = {tuple(p.env.get("trace", ())) for p in paths}
         want = {("READ",)} if t == "INIT" else {("READ", "RESET")}
         chk.ob("initial-read-then-policy", f.site(), got == want, f"_start_init type={t}: {sorted(got)}; reference {sorted(want)}", key=f"tracker|_start_init|{t}")
+        # the task cancelled (stop / disconnect / unregister) while its read is under way or queued must start nothing:
+        # stop() has already cleared the slot, so a task created now would be an orphan nobody can cancel
+        def cm_cancel(c, env):
+            if call_name(c) == "self._read_state":
+                return [Outcome("READ:cancelled", Raise("CancelledError"))]
+            return cm(c, env)
+        cfg, paths = _run(repo, f, cm_cancel, {"self.tracker_type": EnumMember(TT, t)})
+        gotc = {(tuple(x for x in p.env.get("trace", ()) if not x.startswith("raise:")), p.end_kind) for p in paths}
+        chk.ob("cancelled-tracker-starts-nothing", f.site(), gotc == {(("READ:cancelled",), "raise")}, f"_start_init type={t}, cancelled during the read: {sorted(gotc)}; reference: the cancellation propagates and nothing else happens", key=f"tracker|_start_init|cancel|{t}")
     f = T("update_received"); chk.unit(f)
     for t in types:
         cfg, paths = _run(repo, f, cm, {"self.tracker_type": EnumMember(TT, t)})
@@ -101,6 +110,14 @@ def tracker(chk: Check, repo: Repo) -> None:
         raise AnalysisError("_update_loop: loop not found")
     am = AbsMachine(cfg, ExcTable(repo), cm)
     it = {(tuple(p.env.get("trace", ())), "head" if p.end == heads[0].id else p.end_kind) for p in Explorer(cfg, repo, am.step).run(heads[0].id, [heads[0].id], {})}
+    for victim in ("asyncio.sleep", "self._read_state"):
+        def cm_cancel2(c, env, victim=victim):
+            if call_name(c) == victim:
+                return [Outcome("CANCELLED", Raise("CancelledError"))]
+            return cm(c, env)
+        am2 = AbsMachine(cfg, ExcTable(repo), cm_cancel2)
+        itc = {(tuple(x for x in p.env.get("trace", ()) if not x.startswith("raise:") and not x.startswith("SLEEP")), p.end_kind) for p in Explorer(cfg, repo, am2.step).run(heads[0].id, [heads[0].id], {})}
+        chk.ob("cancelled-tracker-starts-nothing", f.site(), itc == {(("CANCELLED",), "raise")}, f"_update_loop cancelled in {victim}: {sorted(itc)}; reference: the cancellation propagates and nothing else happens", key=f"tracker|_update_loop|cancel|{victim}")
     chk.ob("update-loop-iteration", f.site(), it == {(("SLEEP(self.update_interval)", "READ"), "head")}, f"one iteration of _update_loop: {sorted(it)}; reference sleep(update_interval) then read, forever", key="tracker|_update_loop")
     ini = T("__init__"); chk.unit(ini)
     asg = [n for n in walk_local(ini.node) if isinstance(n, ast.Assign) and ast.unparse(n.targets[0]) == "self.update_interval"]
